@@ -104,7 +104,7 @@ func finish(o RunOpts, spec *PropSpec, ov *Overlay, jobs []Job, results []*jobRe
 			broken = append(broken, r.job.name()+": "+r.err)
 		}
 		for i, v := range r.st.Violations {
-			id := fmt.Sprintf("%s#viol%d", r.job.name(), i)
+			id := fmt.Sprintf("%s:%s#viol%d", r.job.Dir, r.job.name(), i)
 			to := 20000
 			if v.Label == "unwind" {
 				to = 5000
@@ -119,7 +119,7 @@ func finish(o RunOpts, spec *PropSpec, ov *Overlay, jobs []Job, results []*jobRe
 		sort.Strings(kfIDs)
 		for _, kid := range kfIDs {
 			h := r.st.KFHits[kid]
-			id := fmt.Sprintf("%s#kf-%s", r.job.name(), kid)
+			id := fmt.Sprintf("%s:%s#kf-%s", r.job.Dir, r.job.name(), kid)
 			to := 20000
 			if h.Label == "unwind" {
 				to = 5000
